@@ -228,11 +228,10 @@ Definition net_ok (t t' : table) (cs : list change) (net : N) : Prop :=
   (forall c, In c cs -> c_net c = net ->
              chg_ok net (alookup net (t_dests t)) (alookup net (t_dests t')) c)
   /\ ((forall c, In c cs -> c_net c <> net) ->
-      elig_of t net = elig_of t' net
-      \/ (t_deferring t = true /\ t_deferring t' = true /\ elig_of t' net <> [])).
+      t_deferring t = true \/ elig_of t net = elig_of t' net).
 
 Lemma net_ok_refl t net : net_ok t t [] net.
-Proof. split; [intros c []|intros _; left; reflexivity]. Qed.
+Proof. split; [intros c []|intros _; right; reflexivity]. Qed.
 
 Definition ochs (h : N -> dest -> option change) (ds : list (N * dest)) : list change :=
   flat_map (fun nd => match h (fst nd) (snd nd) with Some c => [c] | None => [] end) ds.
@@ -258,7 +257,7 @@ Proof.
     destruct (Hs _ _ Hin) as [H1 _]. specialize (H1 _ E).
     assert (n = net) by (destruct H1 as [H1 _]; congruence). subst n.
     rewrite (in_alookup _ _ _ Hk Hin). exact H1.
-  - intro Hno. left. destruct (alookup net (t_dests t)) as [d|] eqn:Hd; [|reflexivity].
+  - intro Hno. right. destruct (alookup net (t_dests t)) as [d|] eqn:Hd; [|reflexivity].
     apply alookup_in in Hd. destruct (Hs _ _ Hd) as [H1 H2].
     destruct (h net d) as [c|] eqn:E; [|apply H2; reflexivity].
     exfalso. apply (Hno c); [apply in_ochs; exists net, d; split; assumption|].
@@ -320,7 +319,7 @@ Lemma ins_out_sound t d0 d2 n0 replaced filt :
       c_net c = n0 /\ c_paths c = elig_list d2 /\ c_dest_id c = d_id d2
       /\ (c_best_changed c = false -> head_content (elig_list d0) = head_content (elig_list d2))
       /\ (c_any_changed c = false -> elig_list d0 = elig_list d2)
-  | _ => elig_list d0 = elig_list d2 \/ (t_deferring t = true /\ elig_list d2 <> [])
+  | _ => t_deferring t = true \/ elig_list d0 = elig_list d2
   end.
 Proof.
   intro Hsame. unfold ins_out.
@@ -328,17 +327,12 @@ Proof.
                  elig_list d0 = elig_list d2).
   { intro H. apply orb_false_iff in H as [Hf Hr]. apply negb_false_iff in Hf. apply Hsame; [exact Hf|].
     destruct replaced as [r|]; [|exact Logic.I]. apply negb_false_iff in Hr. exact Hr. }
-  destruct (t_deferring t && _) eqn:Hd.
-  - apply andb_true_iff in Hd as [Hd Hw]. apply negb_true_iff in Hw.
-    rewrite !best_key_head in Hw. unfold head_content in Hw.
-    destruct (elig_list d2) as [|x xs] eqn:E2.
-    + destruct (elig_list d0) as [|y ys]; [left; reflexivity|discriminate].
-    + right. split; [exact Hd|discriminate].
-  - destruct (negb (negb (key_eqb (best_key d0) (best_key d2))) && _) eqn:Hq.
-    + apply andb_true_iff in Hq as [_ Hq]. apply negb_true_iff in Hq. left. apply Hany, Hq.
-    + cbn [c_net c_paths c_dest_id c_best_changed c_any_changed]. repeat split; try reflexivity.
-      * intro Hb. apply negb_false_iff, key_eqb_eq in Hb. rewrite !best_key_head in Hb. exact Hb.
-      * exact Hany.
+  destruct (t_deferring t) eqn:Hd; [left; reflexivity|].
+  destruct (negb (negb (key_eqb (best_key d0) (best_key d2))) && _) eqn:Hq.
+  - apply andb_true_iff in Hq as [_ Hq]. apply negb_true_iff in Hq. right. apply Hany, Hq.
+  - cbn [c_net c_paths c_dest_id c_best_changed c_any_changed]. repeat split; try reflexivity.
+    + intro Hb. apply negb_false_iff, key_eqb_eq in Hb. rewrite !best_key_head in Hb. exact Hb.
+    + exact Hany.
 Qed.
 
 Lemma elig_of_ins_lookup t net : elig_of t net = elig_list (fst (ins_lookup t net)).
@@ -382,8 +376,8 @@ Proof.
   destruct (net =? n0) eqn:En.
   - apply N.eqb_eq in En. subst net. fold (elig_of t n0). rewrite (elig_of_ins_lookup t n0). fold d0.
     destruct (ins_out t d0 d2 n0 replaced filt) as [| |c].
-    + split; [intros c []|]. intros _. destruct Ho as [Ho|[Hd Hne]]; [left; exact Ho|right; repeat split; assumption].
-    + split; [intros c []|]. intros _. destruct Ho as [Ho|[Hd Hne]]; [left; exact Ho|right; repeat split; assumption].
+    + split; [intros c []|]. intros _. exact Ho.
+    + split; [intros c []|]. intros _. exact Ho.
     + destruct Ho as (H1 & H2 & H3 & H4 & H5). split.
       * intros c0 [<-|[]] _. unfold chg_ok. cbn [oel oid]. split; [exact H1|]. split; [exact H2|].
         split; [rewrite H3; reflexivity|].
@@ -393,7 +387,7 @@ Proof.
   - apply N.eqb_neq in En. split.
     + intros c Hc Hn. exfalso. destruct (ins_out t d0 d2 n0 replaced filt) as [| |c0];
         [destruct Hc|destruct Hc|]. destruct Hc as [<-|[]]. destruct Ho as (H1 & _). congruence.
-    + intros _. left. reflexivity.
+    + intros _. right. reflexivity.
 Qed.
 
 (* ------------------------------------------------------------------ remove *)
@@ -419,9 +413,9 @@ Proof.
       destruct (negb (e_filtered removed)) eqn:Hu.
       * split; [|intro Hno; exfalso; apply (Hno _ (or_introl eq_refl)); reflexivity].
         intros c [<-|[]] _. unfold chg_ok. cbn. repeat split; try reflexivity; discriminate.
-      * split; [intros c []|]. intros _. left. apply negb_false_iff in Hu.
+      * split; [intros c []|]. intros _. right. apply negb_false_iff in Hu.
         unfold elig_list. rewrite El. cbn. rewrite (Hfe Hu). reflexivity.
-    + apply N.eqb_neq in En. split; [|intros _; left; reflexivity].
+    + apply N.eqb_neq in En. split; [|intros _; right; reflexivity].
       intros c Hc Hn. exfalso. destruct (negb (e_filtered removed)); [|destruct Hc].
       destruct Hc as [<-|[]]. cbn in Hn. congruence.
   - rewrite alookup_aset. destruct (net =? n0) eqn:En.
@@ -429,7 +423,7 @@ Proof.
       set (d' := with_entries d (x :: xs) (d_next_pid d)).
       assert (Hel : elig_list d' = filter eligible (x :: xs)) by reflexivity.
       destruct (negb (negb (key_eqb (best_key d) (best_key d'))) && negb (negb (e_filtered removed))) eqn:Hq.
-      * split; [intros c []|]. intros _. left. apply andb_true_iff in Hq as [_ Hq].
+      * split; [intros c []|]. intros _. right. apply andb_true_iff in Hq as [_ Hq].
         rewrite negb_involutive in Hq. cbn [oel]. rewrite Hel. symmetry. apply Hout, Hfe, Hq.
       * split; [|intro Hno; exfalso; apply (Hno _ (or_introl eq_refl)); reflexivity].
         intros c [<-|[]] _. unfold chg_ok.
@@ -437,35 +431,38 @@ Proof.
         repeat split; try reflexivity.
         -- intro Hb. apply negb_false_iff, key_eqb_eq in Hb. rewrite !best_key_head in Hb. exact Hb.
         -- intro Hu. apply negb_false_iff in Hu. fold d'. rewrite Hel. symmetry. apply Hout, Hfe, Hu.
-    + apply N.eqb_neq in En. split; [|intros _; left; reflexivity].
+    + apply N.eqb_neq in En. split; [|intros _; right; reflexivity].
       intros c Hc Hn. exfalso.
       destruct (negb (negb (key_eqb _ _)) && _); [destruct Hc|]. destruct Hc as [<-|[]]. cbn in Hn. congruence.
 Qed.
 
 (* -------------------------------------------------------------- deferral *)
 
-Lemma in_loc_rib t c :
-  In c (loc_rib t None) <->
-  exists n d, In (n, d) (t_dests t) /\ elig_list d <> []
+Lemma net_ok_quiet t t' cs net : net_ok t t' cs net -> net_ok t t' (quiet t cs) net.
+Proof.
+  intros H. unfold quiet. destruct (t_deferring t) eqn:Hd; [|exact H].
+  split; [intros c []|intros _; left; exact Hd].
+Qed.
+
+Lemma in_all_dests t c :
+  In c (all_dests t) <->
+  exists n d, In (n, d) (t_dests t)
               /\ c = {| c_net := n; c_dest_id := d_id d; c_best_changed := true; c_any_changed := true;
                         c_replaced := None; c_paths := elig_list d |}.
 Proof.
-  unfold loc_rib. rewrite in_flat_map. split.
-  - intros ([n d] & Hin & H). cbn [fst snd] in H. exists n, d. split; [exact Hin|].
-    destruct (elig_list d) as [|x xs] eqn:E; [destruct H|]. destruct H as [<-|[]]. split; [discriminate|reflexivity].
-  - intros (n & d & Hin & Hne & ->). exists (n, d). split; [exact Hin|]. cbn [fst snd].
-    destruct (elig_list d) as [|x xs] eqn:E; [contradiction|]. left. reflexivity.
+  unfold all_dests. rewrite in_map_iff. split.
+  - intros ([n d] & <- & Hin). exists n, d. split; [exact Hin|reflexivity].
+  - intros (n & d & Hin & ->). exists (n, d). split; [reflexivity|exact Hin].
 Qed.
 
 Lemma elig_of_set_deferring t b net : elig_of (set_deferring t b) net = elig_of t net.
 Proof. reflexivity. Qed.
 
 Lemma net_ok_end_deferral t net :
-  NoDup (map fst (t_dests t)) ->
-  net_ok t (set_deferring t false) (loc_rib (set_deferring t false) None) net.
+  NoDup (map fst (t_dests t)) -> net_ok t (set_deferring t false) (all_dests t) net.
 Proof.
-  intro Hk. split; [|intros _; left; reflexivity].
-  intros c Hc Hn. apply in_loc_rib in Hc as (n & d & Hin & Hne & ->). cbn [c_net] in Hn. subst n.
+  intro Hk. split; [|intros _; right; reflexivity].
+  intros c Hc Hn. apply in_all_dests in Hc as (n & d & Hin & ->). cbn [c_net] in Hn. subst n.
   cbn [set_deferring t_dests] in *. rewrite (in_alookup _ _ _ Hk Hin). unfold chg_ok. cbn.
   repeat split; try reflexivity; discriminate.
 Qed.
@@ -480,31 +477,48 @@ Proof.
   - pose proof (net_ok_insert t s n0 rpid nh a filt nhinv lim net He) as H.
     destruct (insert t s n0 rpid nh a filt nhinv lim) as [t' [| |c]]; exact H.
   - pose proof (net_ok_remove t s n0 rpid ctr net He) as H.
-    destruct (remove t s n0 rpid ctr) as [t' [c|]]; exact H.
-  - pose proof (net_ok_drop t k addr ctr net He) as H. destruct (drop_op t k addr ctr) as [t' cs]. exact H.
-  - pose proof (net_ok_restale f t llgr addr net H1 He) as H. destruct (restale_op t llgr addr) as [t' cs]. exact H.
-  - pose proof (net_ok_nhv t nh r net He) as H. destruct (nhv_op t nh r) as [t' cs]. exact H.
-  - cbn [fst snd]. split; [intros c []|intros _; left; reflexivity].
+    destruct (remove t s n0 rpid ctr) as [t' [c|]]; cbn [fst snd] in *; [apply net_ok_quiet, H|exact H].
+  - pose proof (net_ok_drop t k addr ctr net He) as H. destruct (drop_op t k addr ctr) as [t' cs].
+    cbn [fst snd] in *. apply net_ok_quiet, H.
+  - pose proof (net_ok_restale f t llgr addr net H1 He) as H. destruct (restale_op t llgr addr) as [t' cs].
+    cbn [fst snd] in *. apply net_ok_quiet, H.
+  - pose proof (net_ok_nhv t nh r net He) as H. destruct (nhv_op t nh r) as [t' cs].
+    cbn [fst snd] in *. apply net_ok_quiet, H.
+  - cbn [fst snd]. split; [intros c []|intros _; right; reflexivity].
   - cbn [fst snd]. apply net_ok_end_deferral, He.
 Qed.
 
-Lemma step_deferring t o :
-  o <> EndDeferral -> t_deferring t = true -> t_deferring (step_t t o) = true.
+(* only start_deferral / end_deferral touch the flag *)
+Lemma step_deferring_same t o :
+  o <> StartDeferral -> o <> EndDeferral -> t_deferring (step_t t o) = t_deferring t.
 Proof.
-  intros Hne Hd. unfold step_t.
+  intros Hs Hne. unfold step_t.
   destruct o as [s n0 rpid nh a filt nhinv lim|s n0 rpid ctr|k addr ctr|llgr addr|nh r| |]; cbn [step].
   - pose proof (insert_shape t s n0 rpid nh a filt nhinv lim) as H. cbv zeta in H.
     destruct (insert t s n0 rpid nh a filt nhinv lim) as [t' [| |c]]; cbn [fst] in *;
-      (destruct H as [->|(d2 & _ & _ & _ & _ & _ & E)]; [exact Hd|rewrite E; exact Hd]).
+      (destruct H as [->|(d2 & _ & _ & _ & _ & _ & E)]; [reflexivity|exact E]).
   - pose proof (remove_shape t s n0 rpid ctr) as H. cbv zeta in H.
     destruct (remove t s n0 rpid ctr) as [t' [c|]]; cbn [fst] in *;
-      (destruct H as [->|(d & _ & _ & _ & E & _)]; [exact Hd|rewrite E; exact Hd]).
-  - pose proof (drop_op_used t k addr ctr) as (_ & _ & H). destruct (drop_op t k addr ctr) as [t' cs].
-    cbn [fst] in *. rewrite H. exact Hd.
-  - pose proof (restale_op_rest t llgr addr) as (_ & _ & H). destruct (restale_op t llgr addr) as [t' cs].
-    cbn [fst] in *. rewrite H. exact Hd.
-  - pose proof (nhv_op_rest t nh r) as (_ & _ & H). destruct (nhv_op t nh r) as [t' cs].
-    cbn [fst] in *. rewrite H. exact Hd.
+      (destruct H as [->|(d & _ & _ & _ & E & _)]; [reflexivity|exact E]).
+  - pose proof (drop_op_used t k addr ctr) as (_ & _ & H). destruct (drop_op t k addr ctr) as [t' cs]. exact H.
+  - pose proof (restale_op_rest t llgr addr) as (_ & _ & H). destruct (restale_op t llgr addr) as [t' cs]. exact H.
+  - pose proof (nhv_op_rest t nh r) as (_ & _ & H). destruct (nhv_op t nh r) as [t' cs]. exact H.
+  - contradiction.
+  - contradiction.
+Qed.
+
+(* while the family is deferring no mutator reports anything *)
+Lemma quiet_while_deferring t o :
+  t_deferring t = true -> o <> EndDeferral -> step_cs t o = [].
+Proof.
+  intros Hd Hne. unfold step_cs.
+  destruct o as [s n0 rpid nh a filt nhinv lim|s n0 rpid ctr|k addr ctr|llgr addr|nh r| |]; cbn [step].
+  - unfold insert. cbv zeta. destruct (ins_over t lim _); [reflexivity|].
+    destruct (ins_pid _ _ _) as [pn|]; [|reflexivity]. unfold ins_out. rewrite Hd. reflexivity.
+  - destruct (remove t s n0 rpid ctr) as [t' [c|]]; cbn [fst snd]; [unfold quiet; rewrite Hd|]; reflexivity.
+  - destruct (drop_op t k addr ctr) as [t' cs]. cbn [fst snd]. unfold quiet. rewrite Hd. reflexivity.
+  - destruct (restale_op t llgr addr) as [t' cs]. cbn [fst snd]. unfold quiet. rewrite Hd. reflexivity.
+  - destruct (nhv_op t nh r) as [t' cs]. cbn [fst snd]. unfold quiet. rewrite Hd. reflexivity.
   - reflexivity.
   - contradiction.
 Qed.
@@ -524,12 +538,14 @@ Hypothesis Hsound : forall c old new,
     relevant c = false ->
     (c_best_changed c = false -> head_content old = head_content new) ->
     (c_any_changed c = false -> old = new) ->
-    proj old = proj new /\ (old <> [] -> new <> []).
+    proj old = proj new.
 (* notifications with both flags set are never skipped *)
 Hypothesis Hloc : forall c, c_best_changed c = true -> c_any_changed c = true -> relevant c = true.
 
+(* while deferring (which starts on an empty family) the consumer knows nothing;
+   otherwise it knows the RIB *)
 Definition G (t : table) (v : N -> X) : Prop :=
-  forall net, v net = proj (elig_of t net) \/ (t_deferring t = true /\ elig_of t net <> []).
+  forall net, v net = proj (if t_deferring t then [] else elig_of t net).
 
 Lemma fold_net cs v net P :
   (forall c, In c cs -> c_net c = net -> c_paths c = P) ->
@@ -551,41 +567,41 @@ Proof.
 Qed.
 
 Lemma G_step f t o v :
-  inv1 f t -> invE t -> op_wf f o -> G t v -> G (step_t t o) (fold_left gen_apply (step_cs t o) v).
+  inv1 f t -> invE t -> op_wf f o -> (o = StartDeferral -> t_dests t = []) ->
+  G t v -> G (step_t t o) (fold_left gen_apply (step_cs t o) v).
 Proof.
-  intros H1 He Hw HG net.
+  intros H1 He Hw Hstart HG net. specialize (HG net).
   destruct (net_ok_step f t o net H1 He Hw) as [Hc Hno].
   assert (HP : forall c, In c (step_cs t o) -> c_net c = net -> c_paths c = elig_of (step_t t o) net).
   { intros c Hin Hn. destruct (Hc c Hin Hn) as (_ & Hp & _). exact Hp. }
-  destruct (fold_net (step_cs t o) v net _ HP) as [Hf|[Hf Hirr]]; [left; exact Hf|]. rewrite Hf.
   destruct o as [s n0 rpid nh a filt nhinv lim|s n0 rpid ctr|k addr ctr|llgr addr|nh r| |] eqn:Eo.
-  7: { (* EndDeferral *)
-    unfold step_t, step_cs in *. cbn [step fst snd] in *. rewrite elig_of_set_deferring in *.
-    destruct (HG net) as [Hv|[_ Hne]]; [left; exact Hv|]. exfalso.
-    unfold elig_of in Hne. destruct (alookup net (t_dests t)) as [d|] eqn:Hd; [|contradiction].
-    apply alookup_in in Hd.
+  6: { (* StartDeferral on an empty family *)
+    unfold step_t, step_cs in *. cbn [step fst snd set_deferring t_deferring fold_left] in *.
+    rewrite HG. unfold elig_of. rewrite (Hstart eq_refl). destruct (t_deferring t); reflexivity. }
+  6: { (* EndDeferral: every destination is reported *)
+    destruct (fold_net (step_cs t EndDeferral) v net _ HP) as [Hf|[Hf Hirr]];
+      unfold step_t, step_cs in *; cbn [step fst snd set_deferring t_deferring] in *; [exact Hf|].
+    rewrite Hf, HG. rewrite elig_of_set_deferring.
+    unfold elig_of. destruct (alookup net (t_dests t)) as [d|] eqn:Hd; [|destruct (t_deferring t); reflexivity].
+    exfalso. apply alookup_in in Hd.
     assert (Hrel : relevant {| c_net := net; c_dest_id := d_id d; c_best_changed := true; c_any_changed := true;
                                c_replaced := None; c_paths := elig_list d |} = false).
-    { apply Hirr; [|reflexivity]. apply in_loc_rib. exists net, d. repeat split; assumption. }
+    { apply Hirr; [|reflexivity]. apply in_all_dests. exists net, d. split; [exact Hin0 || exact Hd|reflexivity]. }
     rewrite Hloc in Hrel; [discriminate|reflexivity|reflexivity]. }
   all: rewrite <- Eo in *;
-    assert (Hkeep : t_deferring t = true -> t_deferring (step_t t o) = true)
-      by (apply step_deferring; rewrite Eo; discriminate);
-    destruct (existsb (fun c => c_net c =? net) (step_cs t o)) eqn:Ex;
-    [ apply existsb_exists in Ex as (c & Hin & En); apply N.eqb_eq in En;
-      destruct (Hc c Hin En) as (_ & _ & _ & Hb & Ha);
-      destruct (Hsound c _ _ (Hirr c Hin En) Hb Ha) as [Hp Hnn];
-      destruct (HG net) as [Hv|[Hd Hne]];
-      [ left; rewrite Hv; exact Hp
-      | right; split; [apply Hkeep, Hd|apply Hnn, Hne] ]
-    | assert (Hnone : forall c, In c (step_cs t o) -> c_net c <> net)
-        by (intros c Hin En; assert (existsb (fun c => c_net c =? net) (step_cs t o) = true);
-            [apply existsb_exists; exists c; split; [exact Hin|apply N.eqb_eq, En]|congruence]);
-      destruct (Hno Hnone) as [Heq|(Hd & Hd' & Hne)];
-      [ destruct (HG net) as [Hv|[Hd Hne]];
-        [ left; rewrite Hv, Heq; reflexivity
-        | right; split; [apply Hkeep, Hd|rewrite <- Heq; exact Hne] ]
-      | right; split; assumption ] ].
+    assert (Hsame : t_deferring (step_t t o) = t_deferring t)
+      by (apply step_deferring_same; rewrite Eo; discriminate);
+    rewrite Hsame; destruct (t_deferring t) eqn:Hd;
+    [ rewrite (quiet_while_deferring t o Hd) by (rewrite Eo; discriminate); cbn [fold_left]; exact HG
+    | destruct (fold_net (step_cs t o) v net _ HP) as [Hf|[Hf Hirr]]; [exact Hf|]; rewrite Hf, HG;
+      destruct (existsb (fun c => c_net c =? net) (step_cs t o)) eqn:Ex;
+      [ apply existsb_exists in Ex as (c & Hin & En); apply N.eqb_eq in En;
+        destruct (Hc c Hin En) as (_ & _ & _ & Hb & Ha);
+        apply (Hsound c _ _ (Hirr c Hin En) Hb Ha)
+      | assert (Hnone : forall c, In c (step_cs t o) -> c_net c <> net)
+          by (intros c Hin En; assert (existsb (fun c => c_net c =? net) (step_cs t o) = true);
+              [apply existsb_exists; exists c; split; [exact Hin|apply N.eqb_eq, En]|congruence]);
+        destruct (Hno Hnone) as [Hdd|Heq]; [congruence|rewrite Heq; reflexivity] ] ].
 Qed.
 
 Lemma consume_fst {S} (app : S -> change -> S) t s ops : fst (consume app t s ops) = run t ops.
@@ -595,27 +611,28 @@ Proof.
 Qed.
 
 Lemma consume_G f ops t v :
-  inv1 f t -> invE t -> Forall (op_wf f) ops -> G t v ->
+  inv1 f t -> invE t -> Forall (op_wf f) ops -> startup_deferral t ops -> G t v ->
   G (fst (consume gen_apply t v ops)) (snd (consume gen_apply t v ops)).
 Proof.
-  revert t v. induction ops as [|o r IH]; intros t v H1 He Hw HG; [exact HG|].
-  apply Forall_cons_iff in Hw as [Ho Hr]. cbn [consume]. apply IH.
+  revert t v. induction ops as [|o r IH]; intros t v H1 He Hw Hsd HG; [exact HG|].
+  apply Forall_cons_iff in Hw as [Ho Hr]. destruct Hsd as [Hs0 Hsr]. cbn [consume]. apply IH.
   - apply inv1_step; assumption.
   - apply invE_step, He.
   - exact Hr.
-  - apply (G_step f t o v H1 He Ho HG).
+  - exact Hsr.
+  - apply (G_step f t o v H1 He Ho Hs0 HG).
 Qed.
 
 Lemma consume_correct shard ops :
-  consistent ops ->
+  consistent ops -> startup_deferral (empty_table shard) ops ->
   t_deferring (run (empty_table shard) ops) = false ->
   forall net, snd (consume gen_apply (empty_table shard) (fun _ => proj []) ops) net
               = proj (elig_of (run (empty_table shard) ops) net).
 Proof.
-  intros [f Hf] Hd net.
-  assert (HG0 : G (empty_table shard) (fun _ => proj [])) by (intro n; left; reflexivity).
-  pose proof (consume_G f ops _ _ (inv1_empty f shard) (invE_empty shard) Hf HG0 net) as H.
-  rewrite consume_fst in H. destruct H as [H|[H _]]; [exact H|congruence].
+  intros [f Hf] Hsd Hd net.
+  assert (HG0 : G (empty_table shard) (fun _ => proj [])) by (intro n; reflexivity).
+  pose proof (consume_G f ops _ _ (inv1_empty f shard) (invE_empty shard) Hf Hsd HG0 net) as H.
+  rewrite consume_fst in H. rewrite Hd in H. exact H.
 Qed.
 
 End Consumer.
@@ -665,19 +682,18 @@ Proof.
   destruct (H c Hin eq_refl) as (_ & _ & _ & Hb & Ha). split; assumption.
 Qed.
 
-(* a prefix that gets no notification keeps its eligible list, except that an
-   insert held back by deferral may have changed it, and then it is not empty
-   (so end_deferral will announce it) *)
+(* a prefix that gets no notification keeps its eligible list (while the family
+   is deferring nothing is notified at all) *)
 Lemma C06_silent_prefix_unchanged :
   forall shard ops o net,
     consistent (ops ++ [o]) ->
     let t := run (empty_table shard) ops in
+    t_deferring t = false ->
     (forall c, In c (step_cs t o) -> c_net c <> net) ->
-    elig_of t net = elig_of (step_t t o) net
-    \/ (t_deferring t = true /\ t_deferring (step_t t o) = true /\ elig_of (step_t t o) net <> []).
+    elig_of t net = elig_of (step_t t o) net.
 Proof.
-  intros shard ops o net Hc t Hno. destruct (reach_inv shard ops o Hc) as (f & H1 & He & Hw). fold t in H1, He.
-  destruct (net_ok_step f t o net H1 He Hw) as [_ H]. apply H, Hno.
+  intros shard ops o net Hc t Hd Hno. destruct (reach_inv shard ops o Hc) as (f & H1 & He & Hw). fold t in H1, He.
+  destruct (net_ok_step f t o net H1 He Hw) as [_ H]. destruct (H Hno) as [H0|H0]; [congruence|exact H0].
 Qed.
 
 Lemma find_loc_none net ds :
@@ -710,12 +726,12 @@ Qed.
 (* the full consumer *)
 Lemma C06_fold_all_changes_eq_locrib :
   forall shard ops,
-    consistent ops ->
+    consistent ops -> startup_deferral (empty_table shard) ops ->
     let t := run (empty_table shard) ops in
     t_deferring t = false ->
     forall net, snd (consume full_apply (empty_table shard) (fun _ => []) ops) net = locrib_view t net.
 Proof.
-  intros shard ops Hc t Hd net.
+  intros shard ops Hc Hs t Hd net.
   rewrite locrib_view_elig by (apply invE_run, invE_empty).
   change full_apply with (gen_apply (list entry) (fun _ => true) (fun l => l)).
   apply (consume_correct (list entry) (fun _ => true) (fun l => l)); try assumption.
@@ -726,126 +742,112 @@ Qed.
 (* a consumer that skips best_changed = false still holds the best path *)
 Lemma C06_best_only_consumer_correct :
   forall shard ops,
-    consistent ops ->
+    consistent ops -> startup_deferral (empty_table shard) ops ->
     let t := run (empty_table shard) ops in
     t_deferring t = false ->
     forall net, snd (consume best_apply (empty_table shard) (fun _ => None) ops) net
                 = head_content (locrib_view t net).
 Proof.
-  intros shard ops Hc t Hd net.
+  intros shard ops Hc Hs t Hd net.
   rewrite locrib_view_elig by (apply invE_run, invE_empty).
   change best_apply with (gen_apply _ c_best_changed head_content).
   apply (consume_correct _ c_best_changed head_content); try assumption.
-  - intros c old new Hr Hb _. specialize (Hb Hr). split; [exact Hb|].
-    intros Ho ->. destruct old; [contradiction|discriminate].
+  - intros c old new Hr Hb _. exact (Hb Hr).
   - intros c Hb _. exact Hb.
 Qed.
 
 (* an add-path consumer with any window that skips any_changed = false *)
 Lemma C06_addpath_consumer_correct :
   forall shard ops n,
-    consistent ops ->
+    consistent ops -> startup_deferral (empty_table shard) ops ->
     let t := run (empty_table shard) ops in
     t_deferring t = false ->
     forall net, snd (consume (addpath_apply n) (empty_table shard) (fun _ => limit n []) ops) net
                 = limit n (locrib_view t net).
 Proof.
-  intros shard ops n Hc t Hd net.
+  intros shard ops n Hc Hs t Hd net.
   rewrite locrib_view_elig by (apply invE_run, invE_empty).
   change (addpath_apply n) with (gen_apply _ c_any_changed (limit n)).
   apply (consume_correct _ c_any_changed (limit n)); try assumption.
-  - intros c old new Hr _ Ha. specialize (Ha Hr). subst new. split; [reflexivity|tauto].
+  - intros c old new Hr _ Ha. rewrite (Ha Hr). reflexivity.
   - intros c _ Ha. exact Ha.
 Qed.
 
-(* end_deferral announces exactly the prefixes that have an eligible path,
-   each once with its full list and both flags set; an insert held back by the
-   deferral reports at most the withdrawal of the prefix *)
+(* end_deferral clears the flag and reports every destination once, with its
+   eligible list (an empty list is a withdrawal), its id and both flags set;
+   afterwards the consumer of these reports alone knows the whole Loc-RIB *)
 Lemma C06_end_deferral_emits_all :
   forall shard ops,
     let t := run (empty_table shard) ops in
     let t' := step_t t EndDeferral in
     let cs := step_cs t EndDeferral in
     t_deferring t' = false
-    /\ cs = loc_rib t' None
     /\ NoDup (map c_net cs)
-    /\ (forall net, (exists c, In c cs /\ c_net c = net) <-> elig_of t' net <> [])
+    /\ (forall net, (exists c, In c cs /\ c_net c = net) <-> id_of t' net <> None)
     /\ (forall c, In c cs -> c_paths c = elig_of t' (c_net c) /\ id_of t' (c_net c) = Some (c_dest_id c)
-                             /\ c_best_changed c = true /\ c_any_changed c = true).
+                             /\ c_best_changed c = true /\ c_any_changed c = true)
+    /\ (forall net, fold_left full_apply cs (fun _ => []) net = locrib_view t' net).
 Proof.
   intros shard ops t t' cs.
   assert (Hk : NoDup (map fst (t_dests t))) by (apply invE_run, invE_empty).
-  split; [reflexivity|]. split; [reflexivity|]. unfold cs, t', step_cs, step_t. cbn [step fst snd].
-  split; [|split].
-  - unfold loc_rib. cbn [set_deferring t_dests]. revert Hk. generalize (t_dests t). intro ds.
-    induction ds as [|[n d] r IH]; cbn [flat_map map fst snd]; intro Hk; [constructor|].
-    apply NoDup_cons_iff in Hk as [Hn Hr]. rewrite map_app.
-    destruct (elig_list d); cbn [map app c_net]; [apply IH, Hr|]. constructor; [|apply IH, Hr].
-    intro Hin. apply Hn. apply in_map_iff in Hin as (c & <- & Hin). apply in_flat_map in Hin as ([n1 d1] & Hin & Hc).
-    cbn [fst snd] in Hc. destruct (elig_list d1); [destruct Hc|]. destruct Hc as [<-|[]]. cbn [c_net].
-    apply in_map_iff. exists (n1, d1). split; [reflexivity|exact Hin].
-  - intro net. rewrite elig_of_set_deferring. split.
-    + intros (c & Hin & Hn). apply in_loc_rib in Hin as (n & d & Hin & Hne & ->). cbn [c_net] in Hn. subst n.
-      cbn [set_deferring t_dests] in Hin. unfold elig_of. rewrite (in_alookup _ _ _ Hk Hin). exact Hne.
-    + intro Hne. unfold elig_of in Hne. destruct (alookup net (t_dests t)) as [d|] eqn:Hd; [|contradiction].
-      apply alookup_in in Hd. eexists. split; [apply in_loc_rib; exists net, d; repeat split; eassumption|reflexivity].
-  - intros c Hin. apply in_loc_rib in Hin as (n & d & Hin & Hne & ->). cbn [set_deferring t_dests] in Hin.
+  split; [reflexivity|]. unfold cs, t', step_cs, step_t. cbn [step fst snd].
+  assert (Hall : forall c, In c (all_dests t) ->
+                           c_paths c = elig_of (set_deferring t false) (c_net c)
+                           /\ id_of (set_deferring t false) (c_net c) = Some (c_dest_id c)
+                           /\ c_best_changed c = true /\ c_any_changed c = true).
+  { intros c Hin. apply in_all_dests in Hin as (n & d & Hin & ->).
     cbn [c_net c_paths c_dest_id c_best_changed c_any_changed]. unfold elig_of, id_of. cbn [set_deferring t_dests].
-    rewrite (in_alookup _ _ _ Hk Hin). repeat split; reflexivity.
+    rewrite (in_alookup _ _ _ Hk Hin). repeat split; reflexivity. }
+  split; [|split; [|split; [exact Hall|]]].
+  - unfold all_dests. rewrite map_map. cbn [c_net]. exact Hk.
+  - intro net. unfold id_of. cbn [set_deferring t_dests]. split.
+    + intros (c & Hin & Hn). apply in_all_dests in Hin as (n & d & Hin & ->). cbn [c_net] in Hn. subst n.
+      rewrite (in_alookup _ _ _ Hk Hin). discriminate.
+    + intro Hne. destruct (alookup net (t_dests t)) as [d|] eqn:Hd; [|contradiction].
+      apply alookup_in in Hd. eexists. split; [apply in_all_dests; exists net, d; split; [exact Hd|reflexivity]|reflexivity].
+  - intro net. rewrite locrib_view_elig by exact Hk.
+    change full_apply with (gen_apply (list entry) (fun _ => true) (fun l => l)).
+    destruct (fold_net (list entry) (fun _ => true) (fun l => l) (all_dests t) (fun _ => []) net
+                       (elig_of (set_deferring t false) net)) as [H|[H Hirr]].
+    + intros c Hin Hn. destruct (Hall c Hin) as [Hp _]. rewrite Hp, Hn. reflexivity.
+    + exact H.
+    + rewrite H. unfold elig_of. cbn [set_deferring t_dests].
+      destruct (alookup net (t_dests t)) as [d|] eqn:Hd; [|reflexivity]. exfalso. apply alookup_in in Hd.
+      assert (Hin0 : In {| c_net := net; c_dest_id := d_id d; c_best_changed := true; c_any_changed := true;
+                           c_replaced := None; c_paths := elig_list d |} (all_dests t)).
+      { apply in_all_dests. exists net, d. split; [exact Hd|reflexivity]. }
+      pose proof (Hirr _ Hin0 eq_refl) as Hf. cbv beta in Hf.
+      discriminate.
 Qed.
 
-Lemma ins_out_deferring t d0 d2 net replaced filt :
-  t_deferring t = true ->
-  ins_out t d0 d2 net replaced filt = ONoChange
-  \/ (elig_list d0 <> [] /\ elig_list d2 = []
-      /\ exists c, ins_out t d0 d2 net replaced filt = OChanged c /\ c_net c = net /\ c_paths c = []).
-Proof.
-  intro Hd. unfold ins_out. rewrite Hd. cbn [andb]. rewrite !best_key_head.
-  destruct (elig_list d0) as [|x xs]; cbn [head_content negb]; [left; reflexivity|].
-  destruct (elig_list d2) as [|y ys]; cbn [head_content negb]; [|left; reflexivity].
-  right. split; [discriminate|]. split; [reflexivity|]. cbn [key_eqb negb andb].
-  eexists. split; [reflexivity|]. split; reflexivity.
-Qed.
-
-Lemma C06_deferred_insert_reports_only_withdrawal :
-  forall shard ops s net rpid nh a filt nhinv lim,
+(* while the family is deferring no mutator reports anything *)
+Lemma C06_quiet_while_deferring :
+  forall shard ops o,
     let t := run (empty_table shard) ops in
-    t_deferring t = true ->
-    step_cs t (Insert s net rpid nh a filt nhinv lim) = []
-    \/ exists c, step_cs t (Insert s net rpid nh a filt nhinv lim) = [c]
-                 /\ c_net c = net /\ c_paths c = [] /\ elig_of t net <> []
-                 /\ elig_of (step_t t (Insert s net rpid nh a filt nhinv lim)) net = [].
-Proof.
-  intros shard ops s net rpid nh a filt nhinv lim t Hd. unfold step_cs, step_t. cbn [step].
-  unfold insert. cbv zeta.
-  destruct (ins_over t lim _); [left; reflexivity|].
-  destruct (ins_pid _ _ _) as [pn|]; [|left; reflexivity].
-  set (d0 := fst (ins_lookup t net)).
-  match goal with |- context [ins_out t d0 ?d ?n ?r ?f] =>
-    set (d2 := d); destruct (ins_out_deferring t d0 d2 n r f Hd) as [E|(H0 & H2 & c & E & Hn & Hp)]; rewrite E
-  end; [left; reflexivity|].
-  right. exists c. cbn [fst snd]. split; [reflexivity|]. split; [exact Hn|]. split; [exact Hp|].
-  rewrite (elig_of_ins_lookup t net). split; [exact H0|].
-  unfold elig_of. cbn [t_dests]. rewrite alookup_aset, N.eqb_refl. exact H2.
-Qed.
+    t_deferring t = true -> o <> EndDeferral -> step_cs t o = [].
+Proof. intros shard ops o t. apply quiet_while_deferring. Qed.
 
 (* ------------------------------------------------------------ non-vacuity *)
 
 Definition ex6_ops : list op :=
-  [ Insert (ex_src 1 1 9 0) 1 0 (Some 1) (ex_attr 100 200) false false None;
-    Insert (ex_src 2 2 5 2) 1 0 (Some 2) (ex_attr 101 100) false false None;
-    StartDeferral;
+  [ StartDeferral;
     Insert (ex_src 3 3 7 0) 2 0 (Some 3) (ex_attr 102 100) false false None;
     NhValidity 3 false;
+    Insert (ex_src 3 3 7 0) 3 0 (Some 3) (ex_attr 102 100) true false None;
+    EndDeferral;
+    Insert (ex_src 1 1 9 0) 1 0 (Some 1) (ex_attr 100 200) false false None;
+    Insert (ex_src 2 2 5 2) 1 0 (Some 2) (ex_attr 101 100) false false None;
     NhValidity 3 true;
-    Insert (ex_src 3 3 7 0) 2 0 (Some 3) (ex_attr 102 100) true false None;
     Insert (ex_src 2 2 5 2) 1 1 (Some 2) (ex_attr 103 100) false false None;
     Restale false 2;
     Remove (ex_src 2 2 5 2) 1 1 None;
-    EndDeferral ].
+    Insert (ex_src 3 3 7 0) 3 0 (Some 3) (ex_attr 102 100) true false None ].
 
 Example ex6_consistent : consistent ex6_ops.
 Proof. exists (fun tok => tok). repeat constructor. Qed.
+
+Example ex6_startup : startup_deferral (empty_table 0) ex6_ops.
+Proof. vm_compute. repeat split; intro H; try discriminate H; reflexivity. Qed.
 
 Example ex6_bounded : bounded (empty_table 0) ex6_ops.
 Proof. vm_compute. repeat split. Qed.
@@ -853,12 +855,14 @@ Proof. vm_compute. repeat split. Qed.
 Example ex6_not_deferring : t_deferring (run (empty_table 0) ex6_ops) = false.
 Proof. reflexivity. Qed.
 
-(* the history emits notifications a best-path consumer skips and one an
-   add-path consumer skips, and the deferred withdrawal *)
+(* nothing is reported while deferring; end_deferral reports both prefixes, one
+   of them with an empty list; later notifications include ones a best-path
+   consumer skips; the last insert (filtered replaces filtered) is silent *)
 Example ex6_flags :
   map (fun c => (c_net c, c_best_changed c, c_any_changed c, length (c_paths c)))
       (flat_map (fun k => step_cs (run (empty_table 0) (firstn k ex6_ops)) (nth k ex6_ops StartDeferral))
-                [0; 1; 2; 3; 4; 5; 6; 7; 8; 9; 10]%nat)
-  = [(1, true, true, 1%nat); (1, false, true, 2%nat); (2, true, true, 0%nat); (2, true, true, 1%nat);
-     (2, true, true, 0%nat); (1, false, true, 3%nat); (1, false, true, 2%nat); (1, true, true, 2%nat)].
+                [0; 1; 2; 3; 4; 5; 6; 7; 8; 9; 10; 11]%nat)
+  = [(2, true, true, 0%nat); (3, true, true, 0%nat);
+     (1, true, true, 1%nat); (1, false, true, 2%nat); (2, true, true, 1%nat);
+     (1, false, true, 3%nat); (1, false, true, 3%nat); (1, false, true, 2%nat)].
 Proof. vm_compute. reflexivity. Qed.
